@@ -68,7 +68,7 @@ blocks on an empty queue (`hang`); the only error the model can return is a malf
 theorem sched_no_internal_error (h : Hyp cfg rank) (hs : StartOK cfg (den cfg P rank) st0)
     (choices : List Nat) (e : Err) (he : mainLoop cfg P choices (sys0 st0) = .error e) : e = .badChoice := by
   rcases mainLoop_spec P (den_fixpoint cfg P rank h) h.nw h.cs rank h.acyclic choices (sys0 st0) hs.sysInv with
-    hbad | ⟨s', o, hok, _⟩
+    ⟨hbad, _⟩ | ⟨s', o, hok, _⟩
   · rw [hbad] at he; cases he; rfl
   · rw [hok] at he; cases he
 
@@ -78,7 +78,7 @@ theorem sched_cache_sound (h : Hyp cfg rank) (hs : StartOK cfg (den cfg P rank) 
     (choices : List Nat) (s' : Sys α) (o : Outcome) (hrun : mainLoop cfg P choices (sys0 st0) = .ok (s', o)) :
     ∀ k v, s'.st.cache.get? k = some v → v = den cfg P rank k := by
   rcases mainLoop_spec P (den_fixpoint cfg P rank h) h.nw h.cs rank h.acyclic choices (sys0 st0) hs.sysInv with
-    hbad | ⟨s1, o1, hok, hdone, hstarved, hfailed, _⟩
+    ⟨hbad, _⟩ | ⟨s1, o1, hok, hdone, hstarved, hfailed, _⟩
   · rw [hbad] at hrun; cases hrun
   · rw [hok] at hrun
     cases hrun
@@ -94,7 +94,7 @@ always has an outstanding batch to wait for (one iteration never hangs and never
 theorem sched_progress (h : Hyp cfg rank) {s : Sys α} (hinv : SysInv cfg (den cfg P rank) s)
     (hl : loopCond s.st = true) (choice : Nat) :
     iter cfg P choice s = .error .badChoice ∨ ∃ s' o, iter cfg P choice s = .ok (s', o) := by
-  rcases iter_spec P (den_fixpoint cfg P rank h) h.nw h.cs rank h.acyclic hinv hl choice with hb | ⟨s', o, hok, _⟩
+  rcases iter_spec P (den_fixpoint cfg P rank h) h.nw h.cs rank h.acyclic hinv hl choice with ⟨hb, _⟩ | ⟨s', o, hok, _⟩
   · exact Or.inl hb
   · exact Or.inr ⟨s', o, hok⟩
 
@@ -105,7 +105,7 @@ theorem sched_terminates (h : Hyp cfg rank) (hs : StartOK cfg (den cfg P rank) s
     (choices : List Nat) (hlen : st0.dependencies.length < choices.length)
     (s' : Sys α) (o : Outcome) (hrun : mainLoop cfg P choices (sys0 st0) = .ok (s', o)) : o ≠ .starved := by
   rcases mainLoop_spec P (den_fixpoint cfg P rank h) h.nw h.cs rank h.acyclic choices (sys0 st0) hs.sysInv with
-    hbad | ⟨s1, o1, hok, _, hstarved, _, _, hdeps, _, _⟩
+    ⟨hbad, _⟩ | ⟨s1, o1, hok, _, hstarved, _, _, hdeps, _, _⟩
   · rw [hbad] at hrun; cases hrun
   · rw [hok] at hrun
     cases hrun
@@ -124,7 +124,7 @@ theorem sched_result (h : Hyp cfg rank) (hs : StartOK cfg (den cfg P rank) st0)
     (req : Req) (hreq : ∀ k ∈ req.flat, k ∈ cfg.results) :
     nestedGet s'.st.cache.get? req = nestedGet (fun k => some (den cfg P rank k)) req := by
   rcases mainLoop_spec P (den_fixpoint cfg P rank h) h.nw h.cs rank h.acyclic choices (sys0 st0) hs.sysInv with
-    hbad | ⟨s1, o1, hok, hdone, _, _, _, hdeps, _, _⟩
+    ⟨hbad, _⟩ | ⟨s1, o1, hok, hdone, _, _, _, hdeps, _, _⟩
   · rw [hbad] at hrun; cases hrun
   · rw [hok] at hrun
     cases hrun
@@ -220,6 +220,27 @@ theorem get_async_correct (h : Hyp cfg rank) (hG : GraphOK cfg.g cfg.results) (c
       | done => cases hstarved
       | starved => exact hne rfl
       | failed k => cases hstarved
+/-- **the synchronous scheduler** (`get_sync`: every batch completes as soon as it is submitted, i.e. the FIFO
+adversary `choices = 0, 0, …`): the run is never rejected, never raises an internal error, and with as many iterations
+as there are visited keys it has ended - normally, with the denoted values, or with the exception of a failing task. -/
+theorem sync_scheduler_terminates (h : Hyp cfg rank) (hG : GraphOK cfg.g cfg.results) (n : Nat) :
+    ∃ st0, startState cfg P = .ok st0 ∧
+      (st0.dependencies.length < n →
+        ∃ s' o, mainLoop cfg P (List.replicate n 0) (sys0 st0) = .ok (s', o) ∧ (o = .done ∨ ∃ k, o = .failed k ∧ P.fails k = true)) := by
+  obtain ⟨st0, hst, hs⟩ := start_ok (P := P) h hG
+  refine ⟨st0, hst, ?_⟩
+  intro hn
+  rcases mainLoop_spec P (den_fixpoint cfg P rank h) h.nw h.cs rank h.acyclic (List.replicate n 0) (sys0 st0) hs.sysInv with
+    ⟨_, c, hc, hpos⟩ | ⟨s', o, hok, _, _, hfailed, _⟩
+  · have := List.eq_of_mem_replicate hc
+    omega
+  · refine ⟨s', o, hok, ?_⟩
+    have hne := sched_terminates h hs (List.replicate n 0) (by simpa using hn) s' o hok
+    cases o with
+    | done => exact Or.inl rfl
+    | starved => exact absurd rfl hne
+    | failed k => exact Or.inr ⟨k, rfl, (hfailed k rfl).1⟩
+
 end Full
 
 /-! ## non-vacuity: a diamond `0:data, 1:task[0], 2:task[0], 3:task[1,2]`, request `[3]`, two workers -/
